@@ -405,6 +405,9 @@ def extra_numpy_stream(rng):
     M = np.array([[1.0, 2.0], [0.0, -1.0]])
     cases = [
         ('tensordot', lambda: c.tensordot(M, Y, axes=1), lambda: np.tensordot(M, vY, axes=1)),
+        ('tensordot(default axes)', lambda: c.tensordot(M, Y), lambda: np.tensordot(M, vY)),
+        ('tensordot(axes=0)', lambda: c.tensordot(M[0], Y, axes=0), lambda: np.tensordot(M[0], vY, axes=0)),
+        ('tensordot(3-d, default axes)', lambda: c.tensordot(np.arange(8.0).reshape(2, 2, 2), Y), lambda: np.tensordot(np.arange(8.0).reshape(2, 2, 2), vY)),
         ('block', lambda: c.block([[Y, Y], [Y, 2 * Y]]), lambda: np.block([[vY, vY], [vY, 2 * vY]])),
         ('hstack', lambda: c.hstack((Y, Z)), lambda: np.hstack((vY, vZ))),
         ('column_stack', lambda: c.column_stack((x[:2], Y)), lambda: np.column_stack((vx[:2], vY))),
@@ -547,6 +550,12 @@ def oracle_equiv(rng):
     pairs.append((x[:2], x[:2] + x[1:], False))
     pairs.append((x[:2] + x[1:], x[:2], False))
     pairs.append((x[:2], x, False))
+    # equal size, different shape: never equivalent, never an exception
+    pairs.append((x[:3], x[:3].reshape((1, 3)), False))
+    pairs.append((x[:2], x[:2].reshape((2, 1)), False))
+    x6 = c.Expression(np.concatenate((np.asarray(x[:3], dtype=object), np.asarray(2 * x[:3] + 1, dtype=object))))
+    pairs.append((x6.reshape((2, 3)), x6.reshape((3, 2)), False))
+    pairs.append((x6.reshape((2, 3)), x6, False))
     # atoms of different classes may carry the SAME id (ids are per-class counters; a ScalarVariable's id is another counter):
     # equality of ids is not equality of atoms
     from sageopt.coniclifts.operators.abs import Abs, abs as clabs
